@@ -74,17 +74,19 @@ def mix4 {β : Type} (g : Mat K) (i j i' j' : Nat) (X : Nat → β → K) : Nat 
     else if k = j' then g 3 0 * X i b + g 3 1 * X j b + g 3 2 * X i' b + g 3 3 * X j' b
     else X k b
 
-/-- evaluation strategy of the driver: tabulate the `m × m` corner of a matrix (extensionally the identity,
-`freeze_eq`), so that the nested closures of a long fold are not re-evaluated per entry -/
-def freeze {K : Type} (m : Nat) (X : Mat K) : Mat K :=
-  let arr : Array (Array K) := Array.ofFn (n := m) fun p => Array.ofFn (n := m) fun q => X p.1 q.1
-  fun i j => if h : i < m ∧ j < m then
-      (arr[i]'(by simp [arr]; exact h.1))[j]'(by simp [arr]; exact h.2)
-    else X i j
+/-- evaluation strategy of the driver: tabulate the `m × m` corner of a matrix and read it back
+(`ofTable (tabulate m X) X = X`, `ofTable_tabulate`), so that the nested closures of a long fold are not
+re-evaluated per entry -/
+def tabulate {K : Type} (m : Nat) (X : Mat K) : Array (Array K) :=
+  Array.ofFn (n := m) fun p => Array.ofFn (n := m) fun q => X p.1 q.1
 
-def freezeV {K : Type} (m : Nat) (r : Nat → K) : Nat → K :=
-  let arr : Array K := Array.ofFn (n := m) fun p => r p.1
-  fun i => if h : i < m then arr[i]'(by simp [arr]; exact h) else r i
+def ofTable {K : Type} (arr : Array (Array K)) (X : Mat K) : Mat K :=
+  fun i j => if h : i < arr.size then (if h' : j < arr[i].size then arr[i][j] else X i j) else X i j
+
+def tabulateV {K : Type} (m : Nat) (r : Nat → K) : Array K := Array.ofFn (n := m) fun p => r p.1
+
+def ofTableV {K : Type} (arr : Array K) (r : Nat → K) : Nat → K :=
+  fun i => if h : i < arr.size then arr[i] else r i
 
 def asCol (r : Nat → K) : Nat → Unit → K := fun k _ => r k
 def ofCol (X : Nat → Unit → K) : Nat → K := fun k => X k ()
@@ -190,8 +192,13 @@ def compileGU [DecidableEq K] (registers : List Nat) (cmds : List (GCmd K)) : GU
   compileGUWith (fun _ a => a) registers cmds
 
 /-- what the driver runs (`compileGUFast = compileGU`, proved) -/
+def freezeNet (n : Nat) (a : Net K) : Net K :=
+  let tS := tabulate (2 * n) a.S
+  let tr := tabulateV (2 * n) a.r
+  { S := ofTable tS a.S, r := ofTableV tr a.r }
+
 def compileGUFast [DecidableEq K] (registers : List Nat) (cmds : List (GCmd K)) : GUOut K :=
-  compileGUWith (fun n a => { S := freeze (2 * n) a.S, r := freezeV (2 * n) a.r }) registers cmds
+  compileGUWith freezeNet registers cmds
 
 end gu
 
@@ -230,18 +237,26 @@ structure POut (K : Type) where
   regs : List Nat
   T : Mat K
 
+/-- the accumulator of `Passive.compile` -/
+structure PNet (K : Type) where
+  T : Mat K
+
 /-- `Passive.compile(seq, registers)`: one `PassiveChannel(T)` on `ord_reg` -/
-def compilePWith (norm : Nat → Mat K → Mat K) (registers : List Nat) (cmds : List (PCmd K)) : POut K :=
+def compilePWith (norm : Nat → PNet K → PNet K) (registers : List Nat) (cmds : List (PCmd K)) : POut K :=
   let used := usedModesP cmds
   let n := used.length
   { n := n, regs := ordReg registers used,
-    T := cmds.foldl (fun T c => norm n (stepP (dictIdx used) n T c)) ident }
+    T := (cmds.foldl (fun a c => norm n ⟨stepP (dictIdx used) n a.T c⟩) (⟨ident⟩ : PNet K)).T }
 
 def compileP (registers : List Nat) (cmds : List (PCmd K)) : POut K :=
-  compilePWith (fun _ T => T) registers cmds
+  compilePWith (fun _ a => a) registers cmds
+
+def freezeP (n : Nat) (a : PNet K) : PNet K :=
+  let t := tabulate n a.T
+  { T := ofTable t a.T }
 
 def compilePFast (registers : List Nat) (cmds : List (PCmd K)) : POut K :=
-  compilePWith freeze registers cmds
+  compilePWith freezeP registers cmds
 
 end passive
 
